@@ -31,7 +31,7 @@ func init() {
 			return map[string]int{"c03.rowsets": c03Space}
 		},
 	})
-	expectedProbes["C03"] = []string{"c03.multi_message", "c03.inverted_rejected", "c03.limit_cut", "c03.limit_with_dropping_filter", "c03.overlap", "c03.sampled_some", "c03.sample_after_family_drop", "c03.sample_after_empty_rmw"}
+	expectedProbes["C03"] = []string{"c03.multi_message", "c03.inverted_rejected", "c03.limit_cut", "c03.limit_with_dropping_filter", "c03.overlap", "c03.sampled_some", "c03.sample_after_family_drop", "c03.sample_after_empty_rmw", "c03.very_wide_row"}
 }
 
 func c03BoundOf(i int) mBound {
@@ -110,6 +110,16 @@ func runC03(r *Run) {
 	}
 	for i := 0; i < nFill; i++ {
 		add(fmt.Sprintf("aa%04d", i), cellsFill, i%3 == 0) // between "a\0\0" and "ab"
+	}
+	if d.n(12) == 11 || r.Index == 3 {
+		// one very wide row (thousands of cells, a size around a power of two or of ten): a
+		// single row may span response messages, and must still arrive as one committed row
+		wide := []int{1000, 1024, 2048, 4096, 8192}[d.n(5)] + d.n(3) - 1
+		if r.Index == 3 {
+			wide = 4096
+		}
+		add("aa-wide", wide, true)
+		r.Probe("c03.very_wide_row")
 	}
 	if !c16Write(r, w, tbl, entries) {
 		return
